@@ -18,6 +18,7 @@ VAR_POOLS = {
 TERM_POOLS = {
     "ab": {"a": "a", "b": "b", "c": "c"},
     "int": {"a": 0, "b": 1, "c": 2},
+    "upperT": {"a": "A", "b": "B", "c": "C"},          # terminals spelled like the variables of the "upper" pool
 }
 
 
